@@ -156,6 +156,7 @@ func (P *Program) registerIntrinsics() {
 	P.registerRepoModels()
 	P.registerSQL()
 	P.registerVHDB()
+	P.registerWriteStmts()
 }
 
 func (P *Program) registerVH() {
